@@ -37,6 +37,7 @@ type behaviour struct {
 	Cfg  mcfg            `json:"cfg"`
 	Ops  json.RawMessage `json:"ops"`
 	Pred [][]vh.M        `json:"pred"`
+	Tail json.RawMessage `json:"tail,omitempty"` // operations appended after the predicted ones (run and judged, not compared)
 }
 
 type harness struct {
@@ -187,6 +188,14 @@ func runBehaviour(sc int, line []byte, M, S, units int) (r result) {
 	if err != nil {
 		vh.Fatal("bad ops", err)
 	}
+	npred := len(ops)
+	if len(b.Tail) > 0 {
+		tail, err := asmc.ParseTLC(b.Tail)
+		if err != nil {
+			vh.Fatal("bad tail", err)
+		}
+		ops = append(ops, tail...)
+	}
 	h := &harness{sc: sc, cfg: b.Cfg, M: M, S: S, units: units, content: asmc.NewContent(units*S, 2)}
 	h.all = append(h.all, vh.M{"op": "cfg", "sc": sc, "asm": "tcpassembly", "limit": b.Cfg.Limit, "keep": -1, "force": false,
 		"scale": S, "isn": int64(h.isn()), "misn": b.Cfg.Isn, "remove": true})
@@ -217,7 +226,7 @@ func runBehaviour(sc int, line []byte, M, S, units int) (r result) {
 		if n > 1 {
 			r.nmultipart++
 		}
-		if b.Pred != nil && r.drift == nil {
+		if b.Pred != nil && r.drift == nil && i < npred {
 			var pe []vh.M
 			if i < len(b.Pred) {
 				pe = b.Pred[i]
@@ -232,7 +241,7 @@ func runBehaviour(sc int, line []byte, M, S, units int) (r result) {
 			break
 		}
 	}
-	if b.Pred != nil && r.drift == nil && len(b.Pred) > len(ops) {
+	if b.Pred != nil && r.drift == nil && len(b.Pred) > npred {
 		r.drift = &implcmp.Drift{Sc: sc, Cfg: b.Cfg, Ops: string(b.Ops), OpIndex: len(ops), Kind: "length"}
 	}
 	r.events = h.all
